@@ -249,6 +249,10 @@ def discharge(ob: Obligation, rlimit):
 def discharge_isolated(ob, rlimit, wall_s):
     """discharge() in a forked child with a wall-clock limit enforced by the parent: z3's own timeout / rlimit are not
     always honoured inside nlsat.  A killed query is `unknown` (never a violation)."""
+    if ob.goal is None:
+        # a clause that could not be evaluated on this exit (e.g. it reads a field of something that is no longer an object): undecided for this clause
+        # only - the other clauses of the contract are still decided, and the contract as a whole is demoted to its native fall-back
+        return dict(result="unknown", backend="pyvc", ms=0, reason=ob.note or "clause not evaluable on this exit")
     import json
     import os
     import select
